@@ -11,10 +11,10 @@ CONSTANTS
   EpsSet <- EpsA
   Tests = {"span"}
   Periods = {1, 2, 3, 4}
-  NumGadgets = 10
+  NumGadgets = 3
   MaxScale = 65536
-  Bug = "none"
-  MaxIter = 14
+  Bug = "pvi_ring_mod_period"
+  MaxIter = 12
 INVARIANT WellFormedInv
 INVARIANT RingEqualsDocumented
 INVARIANT PVIIteratesArePlainVI
